@@ -164,7 +164,7 @@ def gen_states(rng, n):
 def gen_constraints(rng, n):
     """oneof / or / unknown groups over <= 3 hidden ground fluents (key indices), satisfiable by construction:
     a seeded witness valuation satisfies every group"""
-    hid = rng.sample(range(n), min(n, rng.choice([1, 2, 2, 3, 3])))
+    hid = rng.sample(range(n), min(n, rng.choice([1, 2, 3, 3, 3])))
     w = {i: rng.random() < 0.5 for i in hid}
     cons = []
     rest = list(hid)
@@ -175,7 +175,7 @@ def gen_constraints(rng, n):
             i = rest.pop()
             cons.append({"kind": "unknown", "lits": [[i, False]]})
             continue
-        m = min(len(rest), rng.choice([2, 2, 3]))
+        m = min(len(rest), rng.choice([2, 3, 3]))
         grp, rest = rest[:m], rest[m:]
         if k == "oneof":
             j = rng.randrange(m)
@@ -513,7 +513,7 @@ def run(ctx):
         p, s = explore(ctx, rows[i:i + chunk], "b%d" % (i // chunk), stats)
         printed += p
         skipped += s
-    kg, pg, pgk, unspec, sfail = set(), set(), set(), set(), {}
+    kg, pg, pgk, unspec, sfail, ofail = set(), set(), set(), set(), {}, {}
     for p in printed:
         if p[0] == "KG":
             kg.add(p[1])
@@ -522,7 +522,7 @@ def run(ctx):
         elif p[0] == "UNSPEC":
             unspec.add(p[1])
         elif p[0] == "FAIL":
-            sfail.setdefault(p[1], set()).add(p[2])
+            (sfail if p[2].startswith("mapped-back") else ofail).setdefault(p[1], set()).add(p[2])
     byid = {r["id"]: r for r in rows}
     live = [r for r in rows if r["id"] not in skipped]
     ctx.cov["unspecified"] += len(unspec)
@@ -550,7 +550,7 @@ def run(ctx):
         fs = features(r["P"])
         reduced = r["fam"] == "explicit" and len(r["kept"]) < len({tuple(v["b"] for v in s) for s in r["inits"]})
         extra = []
-        if clause.startswith("mapped-back") or clause.startswith("dropping") or clause.startswith("added") or clause.startswith("compiled-solvable"):
+        if clause.startswith(("mapped-back", "dropping", "added", "compiled-solvable", "tag-is-not")):
             extra.append(r["fam"])
             extra.append("reduced" if reduced else "all-tags")
             extra += [f for f in fs if f == "constatom"]
@@ -572,7 +572,7 @@ def run(ctx):
                 kp = witness(ctx, r, "K", "NoFail", nwit[0])
             ctx.violation(sig, "Ks0Compiler unsound: a plan of the compiled problem maps back to a non-conformant plan (%s)" % clause,
                           data_of(r, clause, plan_k=kp))
-    for p in jfails:
+    for p in [("FAIL", i, c) for i in sorted(ofail) for c in sorted(ofail[i])] + jfails:
         _, i, clause = p
         r = byid[i]
         sig = sig_of(r, clause)
